@@ -1609,6 +1609,10 @@ impl Vm {
         self.push(exc_object);
         self.active_fiber_mut().frames.truncate(handler.frame_count);
         self.handling_exception = handler.has_catch_block();
+        if !self.handling_exception {
+            // A catch block takes the exception: the place it was thrown from is no longer of interest.
+            self.active_fiber_mut().error_ip = None;
+        }
         self.active_fiber_mut().current_frame_mut().unwrap().ip = handler.catch_ip;
         self.load_frame();
         #[cfg(feature = "verif_hooks")]
